@@ -205,6 +205,11 @@ type genCtx struct {
 	// names of the initially registered roots (dependencies of late roots)
 	initial []string
 	late    int
+	// batch: 0 while the expressions of the initial roots are generated, k
+	// inside a root that is registered by batch k-1 (RunDSL executes the roots
+	// registered by one batch together, after sorting them)
+	batch int
+	lates []*rootSpec
 }
 
 func (g *genCtx) next() int { g.id++; return g.id }
@@ -264,7 +269,8 @@ func (g *genCtx) expr(depth int) *exprSpec {
 				break
 			}
 			g.late++
-			lr := &rootSpec{Name: fmt.Sprintf("late%d", g.late)}
+			lr := &rootSpec{Name: fmt.Sprintf("late%d", g.late), Batch: g.batch + 1}
+			g.lates = append(g.lates, lr)
 			for _, n := range g.initial {
 				if g.chance("lateDep", 40) {
 					lr.Deps = append(lr.Deps, n)
@@ -275,6 +281,7 @@ func (g *genCtx) expr(depth int) *exprSpec {
 			}
 			lr.CB = g.chance("lateCB", 30)
 			nsets := rapid.IntRange(1, 2).Draw(t, "lateSets")
+			g.batch++
 			for s := 0; s < nsets; s++ {
 				var set []*exprSpec
 				for x, nx := 0, rapid.IntRange(0, 2).Draw(t, "lateExprs"); x < nx; x++ {
@@ -282,11 +289,46 @@ func (g *genCtx) expr(depth int) *exprSpec {
 				}
 				lr.Sets = append(lr.Sets, set)
 			}
+			g.batch--
 			a.Root = lr
 		}
 		e.Actions = append(e.Actions, a)
 	}
 	return e
+}
+
+// linkLates adds dependencies between the roots registered during execution:
+// a late root may depend on any late root registered by the same batch (before
+// or after it in registration order - RunDSL sorts the roots it picks up) or by
+// an earlier batch. Mostly along a random ranking (acyclic); sometimes two
+// roots of one batch are made to depend on each other, which has to be
+// reported as a dependency cycle.
+func (g *genCtx) linkLates() {
+	if len(g.lates) < 2 {
+		return
+	}
+	rank := rapid.Permutation(seq(len(g.lates))).Draw(g.t, "lateRank")
+	for i, l := range g.lates {
+		for j, m := range g.lates {
+			if i == j || m.Batch > l.Batch || rank[i] < rank[j] {
+				continue
+			}
+			if g.chance("lateLateDep", 50) {
+				l.Deps = append(l.Deps, m.Name)
+			}
+		}
+	}
+	if g.chance("lateCycle", 6) {
+		for i, l := range g.lates {
+			for _, m := range g.lates[i+1:] {
+				if l.Batch == m.Batch {
+					l.Deps = append(l.Deps, m.Name)
+					m.Deps = append(m.Deps, l.Name)
+					return
+				}
+			}
+		}
+	}
 }
 
 func (g *genCtx) root(name string, deps []string) *rootSpec {
@@ -356,6 +398,7 @@ func TestRandomBehaviours(t *testing.T) {
 		for i := 0; i < n; i++ {
 			c.Roots = append(c.Roots, g.root(rootName(i), deps[i]))
 		}
+		g.linkLates()
 		var orders [][]int
 		if n <= 3 {
 			orders = permutations(n)
